@@ -1,0 +1,25 @@
+//go:build verif
+// +build verif
+
+package cmd
+
+import (
+	context2 "github.com/oneconcern/datamon/pkg/context"
+	"github.com/oneconcern/datamon/pkg/core"
+	"go.uber.org/zap"
+)
+
+// VerifContextSquash runs what "datamon context squash" runs once the context stores are built: the per-repo callback
+// of the command (applyRepoSquash) over every repo of the context, with the given values of the command's flags.
+func VerifContextSquash(stores context2.Stores, retainTags, retainSemverTags bool, retainNLatest, concurrencyFactor, batchSize int) error {
+	var f flagsT
+	f.squash.RetainTags = retainTags
+	f.squash.RetainSemverTags = retainSemverTags
+	f.squash.RetainNLatest = retainNLatest
+	f.core.ConcurrencyFactor = concurrencyFactor
+	f.core.BatchSize = batchSize
+	return core.ListReposApply(stores, applyRepoSquash(stores, &f, zap.NewNop()),
+		core.ConcurrentList(f.core.ConcurrencyFactor),
+		core.BatchSize(f.core.BatchSize),
+	)
+}
